@@ -6,13 +6,14 @@ use serde_json::json;
 
 pub fn runs(prop: &str, tier: Tier) -> u64 {
     let (q, t) = match prop {
-        "C01" | "C02" | "C05" => (2500, 30000),
+        "C01" | "C02" | "C05" => (2000, 30000),
         "C06" | "C07" => (3000, 36000),
         "C09" | "C10" | "C11" | "C12" => (2500, 30000),
         "C13" => (2400, 32000),
         "C15" => (30000, 600000),
         "C20" => (20000, 400000),
-        "C03" | "C04" => (500, 5000),
+        "C03" => (500, 5000),
+        "C04" => (350, 4000),
         "C14" => (250, 2500),
         _ => (1500, 20000),
     };
@@ -26,6 +27,46 @@ fn big(r: &mut Rng, p: &mut Profile, tier: Tier) {
     if tier == Tier::Thorough && r.chance(1, 60) { p.pool = (3000, 6000); p.batch = (1500, 4000); p.steps = (3, 7); p.big_pct = 1; }
 }
 
+/// A history built around the page-elision threshold: a dense cluster under one page-aligned (or
+/// nearly aligned) prefix is committed up to 15..19 leaves (its page stays elided), then grown past
+/// 20 by a commit that touches only part of the page (the page is promoted to a stored page), then
+/// touched in its other half, then shrunk again.
+fn threshold_history(s: &mut Scenario, r: &mut Rng) {
+    let base = r.bytes32();
+    let plen = *r.pick(&[12usize, 12, 13, 18, 18, 19, 24, 30, 36]);
+    let mut keys: Vec<Key> = Vec::new();
+    while keys.len() < 30 { let mut k = r.bytes32(); for i in 0..plen { set_bit(&mut k, i, get_bit(&base, i)); } if !keys.contains(&k) { keys.push(k); } }
+    // split the cluster by the next bit so that later commits can stay within one half of the page
+    keys.sort();
+    let (lo, hi): (Vec<Key>, Vec<Key>) = keys.iter().partition(|k| !get_bit(k, plen));
+    let mut stamp = 500_000u32;
+    let mut w = |ks: &[Key], r: &mut Rng| -> Batch { let mut items: Vec<(K, Act)> = ks.iter().map(|k| { stamp += 1; (K(*k), Act::Write(Some(VSpec { len: *r.pick(&[4u32, 40, 300, 1400]), stamp }))) }).collect(); items.sort_by(|a, b| a.0.cmp(&b.0)); Batch { items, ..Default::default() } };
+    let others: Vec<Key> = (0..r.range(2, 8)).map(|_| r.bytes32()).collect();
+    let n_first = r.range(15, 19) as usize;
+    let mut first: Vec<Key> = Vec::new();
+    // mostly from the low half, so that the growth commit can stay in the high half (or vice versa)
+    let (a, b) = if r.chance(1, 2) { (&lo, &hi) } else { (&hi, &lo) };
+    first.extend(a.iter().cloned());
+    for k in b.iter() { if first.len() < n_first { first.push(*k); } }
+    first.truncate(n_first);
+    let rest: Vec<Key> = keys.iter().filter(|k| !first.contains(k)).cloned().collect();
+    let mut steps = Vec::new();
+    let mut f = first.clone(); f.extend(others.iter().cloned());
+    steps.push(Step::Commit { batch: w(&f, r), nonblocking: false });
+    if r.chance(1, 2) { steps.push(Step::Reopen { opts: regen_opts(r, &s.opts, true) }); }
+    let grow = r.range(2, rest.len().min(8) as u64) as usize;
+    steps.push(Step::Commit { batch: w(&rest[..grow.max(21usize.saturating_sub(n_first)).min(rest.len())], r), nonblocking: false });
+    // touch the other half of the promoted page
+    let touch: Vec<Key> = first.iter().take(r.range(1, 3) as usize).cloned().collect();
+    steps.push(Step::Commit { batch: w(&touch, r), nonblocking: false });
+    if r.chance(1, 2) {
+        let del: Vec<(K, Act)> = { let mut v: Vec<(K, Act)> = keys.iter().take(r.range(8, 20) as usize).map(|k| (K(*k), Act::Write(None))).collect(); v.sort_by(|a, b| a.0.cmp(&b.0)); v };
+        steps.push(Step::Commit { batch: Batch { items: del, ..Default::default() }, nonblocking: false });
+    }
+    s.steps = steps;
+    s.probes = keys.iter().take(4).map(|k| { let mut p = *k; set_bit(&mut p, 255, !get_bit(k, 255)); K(p) }).collect();
+}
+
 pub fn make(prop: &str, tier: Tier, seed: u64) -> Scenario {
     let mut r = Rng::new(seed ^ 0xA5A5);
     match prop {
@@ -36,6 +77,13 @@ pub fn make(prop: &str, tier: Tier, seed: u64) -> Scenario {
             let mut c = checks_all();
             c.witness = false; c.multiproof = false; c.proofs = false;
             gen_history(prop, seed, p, c)
+        }
+        "C02" | "C05" | "C16" if r.chance(1, 10) => {
+            let mut c = checks_all();
+            c.witness = false; c.multiproof = false; c.proofs = prop == "C05"; c.values = prop != "C02"; c.decode = prop == "C16"; c.reopen_equal = false;
+            let mut s = gen_history(prop, seed, Profile::default(), c);
+            threshold_history(&mut s, &mut r);
+            s
         }
         "C02" => {
             let mut p = Profile::default();
@@ -233,17 +281,20 @@ pub fn make(prop: &str, tier: Tier, seed: u64) -> Scenario {
             let mut s = gen_history(prop, seed, p, c);
             // hash tables of one meta-map page keep recovery's write order deterministic (DESIGN §3a)
             if s.opts.buckets > 4096 { s.opts.buckets = 4096; for st in s.steps.iter_mut() { if let Step::Reopen { opts } = st { opts.buckets = 4096; } } }
-            // sometimes the target is a deletion-only commit (WAL with cleared pages and no fresh
-            // bucket; emptied leaves), deleting most or all of what exists
-            if r.chance(1, 4) {
-                let mut present: std::collections::BTreeSet<K> = Default::default();
-                for st in &s.steps { if let Step::Commit { batch, .. } = st { for (k, a) in &batch.items { match a { Act::Write(Some(_)) | Act::Rtw(Some(_)) => { present.insert(*k); } Act::Write(None) | Act::Rtw(None) => { present.remove(k); } _ => {} } } } }
-                let all = r.chance(1, 2);
-                let items: Vec<(K, Act)> = present.iter().filter(|_| all || r.chance(3, 4)).map(|k| (*k, Act::Write(None))).collect();
-                if !items.is_empty() { s.steps.push(Step::Commit { batch: Batch { items, ..Default::default() }, nonblocking: false }); }
+            if r.chance(1, 6) {
+                threshold_history(&mut s, &mut r);
+                // the growth commit (promotion of the elided page) is the natural target
+                let growth = s.steps.iter().enumerate().filter(|(_, st)| matches!(st, Step::Commit { .. })).map(|(i, _)| i).nth(1).unwrap_or(0);
+                let target = if r.chance(2, 3) { growth } else { s.steps.len() - 1 };
+                let mode = match prop { "C03" => "crash", "C04" => "power", _ => "fail" };
+                s.extra = json!({ "plan": { "target": target, "mode": mode }, "nested": if prop == "C14" { 0 } else { r.range(0, 1) }, "post_power": if prop == "C04" { 2 } else { 0 } });
+                return s;
             }
+            // sometimes the target is a deletion-only commit (WAL with cleared pages and no fresh
+            // bucket; emptied leaves and merkle pages, possibly the root page)
+            if r.chance(1, 4) { s.steps.push(Step::DeleteAll { keep: *r.pick(&[0usize, 0, 1, 2, 5]) }); }
             // target: a mutating step (commit / overlay commit / rollback / reopen), preferably late
-            let cands: Vec<usize> = s.steps.iter().enumerate().filter(|(_, st)| matches!(st, Step::Commit { .. } | Step::OvCommit { .. } | Step::Rollback { .. } | Step::Reopen { .. })).map(|(i, _)| i).collect();
+            let cands: Vec<usize> = s.steps.iter().enumerate().filter(|(_, st)| matches!(st, Step::Commit { .. } | Step::DeleteAll { .. } | Step::OvCommit { .. } | Step::Rollback { .. } | Step::Reopen { .. })).map(|(i, _)| i).collect();
             let target = if cands.is_empty() { 0 } else if r.chance(2, 3) { *cands.last().unwrap() } else { *r.pick(&cands) };
             let mode = match prop { "C03" => "crash", "C04" => "power", _ => "fail" };
             s.extra = json!({ "plan": { "target": target, "mode": mode }, "nested": if prop == "C14" { 0 } else { r.range(0, 2) }, "post_power": if prop == "C04" { 2 } else { 0 } });
